@@ -272,6 +272,9 @@ class ManifestContext:
                         mf.parse_media_file()
                     if mf.representation is None:
                         continue
+                    if mf.representation.content_type != adp_set.content_type:
+                        # a file of another content type that has the same track ID
+                        continue
                     adp_set.representations.append(mf.representation)
                 adp_set.compute_av_values()
                 period.adaptationSets.append(adp_set)
@@ -371,8 +374,14 @@ class ManifestContext:
                 continue
             assert mf.content_type == 'video'
             assert mf.representation.content_type == 'video'
+            if (video.representations and
+                    video.representations[0].track_id != mf.representation.track_id):
+                # all Representations of an AdaptationSet share one track ID
+                logging.warning(
+                    'Skipping %s as its track ID differs from %s',
+                    mf.name, video.representations[0].id)
+                continue
             video.representations.append(mf.representation)
-            assert video.representations[0].track_id == mf.representation.track_id
         video.compute_av_values()
         assert isinstance(video.representations, list)
         return video
